@@ -195,6 +195,7 @@ class C17(Prop):
                     not re.search(r"fread \(\(char \*\) &bin_%s, sizeof \(bin_%s\), 1, f\)" % (nm, nm), lb) or \
                     not re.search(r"uint%s_t bin_%s;" % (drvw if nm == "driver_id" else cfgw, nm), lb):
                 raise X.TieBroken("binaries.c:preamble", "%s is no longer written and read with its own size" % nm)
+        layout += self.gen_functions(src, sv)
         layout += self.gen_relocation(src, lb, ic)
         layout += self.gen_qsort()
         return "\n".join([
@@ -205,6 +206,48 @@ class C17(Prop):
             "/-- C: check_times() answers 0 (out of date) when `st.st_mtime %s mtime` -/" % op,
             "def checkTimesStrict : Bool := %s" % ("true" if op == ">" else "false"),
         ] + layout)
+
+    def gen_functions(self, src, sv):
+        """small functions the model mirrors statement by statement: their text (comments and white space removed) must be
+        the text the model was written from; the character of compare_compiler_funcs goes into Gen"""
+        def body(start, end):
+            a = src.index(start)
+            t = src[a:src.index(end, a)]
+            t = re.sub(r"/\*.*?\*/", "", t, flags=re.S)
+            return re.sub(r"\s+", "", t)
+        want = {
+            "compare_compiler_funcs": ("compare_compiler_funcs (int *x, int *y)", "static void\nsort_function_table",
+                                       "compare_compiler_funcs(int*x,int*y){char*n1=comp_prog->function_table[*x].name;"
+                                       "char*n2=comp_prog->function_table[*y].name;if(n1[0]=='#'){if(n2[0]=='#')return0;return1;}"
+                                       "if(n2[0]=='#')return-1;if(n1<n2)return-1;if(n1>n2)return1;return0;}"),
+            "str_case_cmp": ("str_case_cmp (char *a, char *b)\n{", "static void\npatch_in",
+                             "str_case_cmp(char*a,char*b){char*s1,*s2;COPY_PTR(&s1,a);COPY_PTR(&s2,b);"
+                             "if((intptr_t)s1<(intptr_t)s2)return-1;if((intptr_t)s1>(intptr_t)s2)return1;return0;}"),
+            "check_times": ("check_times (time_t mtime, const char *nm)\n{", "/*\n * Is anything a loaded",
+                            "check_times(time_tmtime,constchar*nm){structstatst;if(stat(nm,&st)==-1)return-1;"
+                            "if(st.st_mtime>mtime){return0;}return1;}"),
+            "inherited_program_outdated": ("inherited_program_outdated (program_t * prog)\n{", "/*\n * Routines to do some hacking",
+                                           "inherited_program_outdated(program_t*prog){object_t*ob;inti;"
+                                           "if(!prog->name||!(ob=find_object_by_name(prog->name))||ob->prog!=prog)return1;"
+                                           "if(prog->file_info){intend=prog->file_info[1];for(i=2;i+1<end;i+=2){intid=prog->file_info[i+1];"
+                                           "if(id>0&&id<=(int)prog->num_strings&&check_times(ob->load_time,prog->strings[id-1])==0)return1;}}"
+                                           "for(i=0;i<(int)prog->num_inherited;i++){if(inherited_program_outdated(prog->inherit[i].prog))return1;}"
+                                           "return0;}"),
+        }
+        for name, (start, end, text) in want.items():
+            try:
+                got = body(start, end)
+            except ValueError:
+                raise X.TieBroken("binaries.c:" + name, "function `%s` not found" % name)
+            if not got.startswith(text):
+                raise X.TieBroken("binaries.c:" + name, "the text of `%s` is no longer the one the model mirrors: %s" % (name, got[:400]))
+        # save_binary asks inherited_program_outdated() for every inherited program before it opens the file
+        a, b = sv.find("inherited_program_outdated (prog->inherit[i].prog)"), sv.find("crdir_fopen (file_name)")
+        if a < 0 or b < 0 or a > b or not re.search(r"for \(i = 0; i < \(int\) prog->num_inherited; i\+\+\)\s*\{\s*if \(inherited_program_outdated", sv):
+            raise X.TieBroken("save_binary:outdated-parents", "save_binary no longer refuses, before writing, a program whose inherited programs are outdated")
+        m = re.search(r"if\s*\(n1\[0\]\s*==\s*'(.)'\)", src)
+        return ["/-- C: `if (n1[0] == '%s')` in compare_compiler_funcs: the names that stay last -/" % m.group(1),
+                "def lastNameChar : Char := '%s'" % m.group(1)]
 
     def gen_relocation(self, src, lb, ic):
         """which pointer members of program_t exist, which of them locate_out / locate_in relocate (and which only under
